@@ -2,7 +2,7 @@ NAME = 'I-insert'
 PROPERTIES = ['C02', 'C10', 'C15']
 ENGINE = 'verus'
 CLASS = 'U'
-DOC = ('Operations::insert_row (storage database/operations.rs), the storage step of every single-row INSERT: the user-defined UNIQUE indexes are checked '
+DOC = ('Operations::{insert_row, insert_rows_batch} (storage database/operations.rs), the storage step of every INSERT (batch: each clause for every row of the batch, in order, and a failed batch changes nothing). insert_row, the storage step of every single-row INSERT: the user-defined UNIQUE indexes are checked '
        'BEFORE the table is touched; the row goes into the table the name resolves to; the CREATE INDEX indexes (and the spatial ones) are then maintained '
        'with the row AS THE TABLE STORES IT (normalized) at the position the row received - the row count before the insert; a failed check or insert '
        'leaves indexes and table as they were.')
@@ -43,7 +43,19 @@ impl Tables {
         requires old(self).rows_of(catalog, table_name) is Some,
         ensures
             r is Ok ==> stored_form(row) is Some && final(self).rows_of(catalog, table_name) == Some(old(self).rows_of(catalog, table_name)->Some_0.push(stored_form(row)->Some_0)),
-            r is Err ==> final(self).rows_of(catalog, table_name) == old(self).rows_of(catalog, table_name)
+            r is Err ==> final(self).rows_of(catalog, table_name) == old(self).rows_of(catalog, table_name) && stored_form(row) is None    // unit K-table insert: the only failure is a row without a stored form
+    { unimplemented!() }
+    // table.normalize_row(row): the stored form of the row, or the error insert would report (unit K-table side: RowNormalizer)
+    #[verifier::external_body]
+    pub fn normalize_row(&self, catalog: &Catalog, table_name: &str, row: Row) -> (r: Result<Row, StorageError>)
+        requires self.rows_of(catalog, table_name) is Some,
+        ensures (r is Ok) == (stored_form(row) is Some), r matches Ok(x) ==> x == stored_form(row)->Some_0
+    { unimplemented!() }
+    // table.scan().get(i).unwrap_or(row)
+    #[verifier::external_body]
+    pub fn row_ref_at_or<'a>(&'a self, catalog: &Catalog, table_name: &str, i: usize, row: &'a Row) -> (r: &'a Row)
+        requires self.rows_of(catalog, table_name) is Some,
+        ensures *r == (if (i as int) < self.rows_of(catalog, table_name)->Some_0.len() { self.rows_of(catalog, table_name)->Some_0[i as int] } else { *row })
     { unimplemented!() }
     // table.scan().get(i).cloned().unwrap_or(row)
     #[verifier::external_body]
@@ -74,7 +86,29 @@ impl Operations {
         ensures final(self).index_manager == old(self).index_manager { unimplemented!() }
 
 //@@ insert_row
+
+//@@ insert_rows_batch
 }
+/// every row of the batch has a stored form
+pub open spec fn all_storable(rows: Seq<Row>) -> bool { forall|j: int| 0 <= j < rows.len() ==> stored_form(#[trigger] rows[j]) is Some }
+/// the table contents after the first n rows of the batch went in: each appended in its STORED form
+pub open spec fn appended(before: Seq<Row>, rows: Seq<Row>, n: int) -> Seq<Row> decreases n {
+    if n <= 0 { before } else { appended(before, rows, n - 1).push(stored_form(rows[n - 1])->Some_0) }
+}
+/// the maintenance log after the first n rows of the batch were indexed: (stored row, position it received), in order
+pub open spec fn logged(log: Seq<(Row, usize)>, rows: Seq<Row>, base: int, n: int) -> Seq<(Row, usize)> decreases n {
+    if n <= 0 { log } else { logged(log, rows, base, n - 1).push((stored_form(rows[n - 1])->Some_0, (base + n - 1) as usize)) }
+}
+proof fn lemma_appended(before: Seq<Row>, rows: Seq<Row>, n: int)
+    requires 0 <= n <= rows.len(),
+    ensures appended(before, rows, n).len() == before.len() + n,
+            forall|j: int| 0 <= j < before.len() ==> appended(before, rows, n)[j] == before[j],
+            forall|j: int| 0 <= j < n ==> appended(before, rows, n)[before.len() + j] == stored_form(rows[j])->Some_0,
+    decreases n,
+{
+    if n > 0 { lemma_appended(before, rows, n - 1); }
+}
+
 
 fn canary_insert(ops: &mut Operations, catalog: &Catalog, tables: &mut Tables, table_name: &str, row: Row)
 {
@@ -114,13 +148,70 @@ ITEMS = {
 '''),
 }
 
+ITEMS['insert_rows_batch'] = dict(
+        file='crates/vibesql-storage/src/database/operations.rs', path='impl Operations::fn insert_rows_batch', ret='res',
+        rewrites=[
+            ('re', r'vibesql_catalog::Catalog', 'Catalog', None),
+            ('re', r'tables: &mut HashMap<String, Table>', 'tables: &mut Tables', 1),
+            ('re', r'(?s)// Normalize table name for lookup.*?let table = if let Some\(tbl\) = tables\.get_mut\(&normalized_name\) \{.*?\n        \};', 'let resolved__ = tables.resolve(catalog, table_name)?; let ghost before__ = tables.rows_of(catalog, table_name)->Some_0; let ghost log0__ = self.index_manager.inserts();', 1),
+            ('re', r'\btable\.row_count\(\)', 'tables.row_count(catalog, table_name)', None),
+            ('re', r'\btable\.insert\(', 'tables.insert(catalog, table_name, ', None),
+            ('re', r'\btable\.normalize_row\(', 'tables.normalize_row(catalog, table_name, ', None),
+            ('re', r'\btable\.scan\(\)\.get\((\w+)\)\.unwrap_or\((\w+)\)', r'tables.row_ref_at_or(catalog, table_name, \1, \2)', None),
+            ('re', r'let mut row_indices = Vec::with_capacity\(rows\.len\(\)\);', 'let mut row_indices: Vec<usize> = Vec::with_capacity(rows.len());', 1),
+            # R10
+            ('re', r'for row in &rows \{', 'let mut ri__: usize = 0; while ri__ < rows.len() { let row = &rows[ri__]; ri__ = ri__ + 1;', 3),
+            ('re', r'for \(i, row\) in rows\.iter\(\)\.enumerate\(\) \{', 'let mut ei__: usize = 0; while ei__ < rows.len() { let row = &rows[ei__]; let i = ei__; ei__ = ei__ + 1;', 1),
+        ],
+        loops={0: '''
+            invariant ri__ <= rows@.len(), tables.rows_of(catalog, table_name) == Some(before__), self.index_manager.inserts() == log0__, *tables == *old(tables),
+                forall|j: int| 0 <= j < ri__ ==> stored_form(#[trigger] rows@[j]) is Some,
+            decreases rows@.len() - ri__,
+''', 1: '''
+            invariant ri__ <= rows@.len(), tables.rows_of(catalog, table_name) == Some(before__), self.index_manager.inserts() == log0__, *tables == *old(tables), *self == *old(self),
+                forall|j: int| 0 <= j < ri__ ==> old(self).index_manager.unique_ok(#[trigger] rows@[j]),
+            decreases rows@.len() - ri__,
+''', 2: '''
+            invariant ri__ <= rows@.len(), all_storable(rows@), self.index_manager.inserts() == log0__,
+                tables.rows_of(catalog, table_name) == Some(appended(before__, rows@, ri__ as int)),
+                row_indices@.len() == ri__, forall|j: int| 0 <= j < ri__ ==> (#[trigger] row_indices@[j]) == before__.len() + j,
+            decreases rows@.len() - ri__,
+''', 3: '''
+            invariant ei__ <= rows@.len(), all_storable(rows@),
+                tables.rows_of(catalog, table_name) == Some(appended(before__, rows@, rows@.len() as int)),
+                row_indices@.len() == rows@.len(), forall|j: int| 0 <= j < rows@.len() ==> (#[trigger] row_indices@[j]) == before__.len() + j,
+                self.index_manager.inserts() == logged(log0__, rows@, before__.len() as int, ei__ as int),
+            decreases rows@.len() - ei__,
+'''},
+        proofs=[('@loop2', 'proof { lemma_appended(before__, rows@, ri__ as int); }'),
+                ('@loop3', 'proof { lemma_appended(before__, rows@, rows@.len() as int); }'),
+                ('@afterloop0', 'proof { assert(all_storable(rows@)); }')],
+        contract='''
+        ensures
+            // a failed batch changes NOTHING: no row stays behind unindexed
+            res is Err ==> final(self).index_manager.inserts() == old(self).index_manager.inserts()
+                && (old(tables).rows_of(catalog, table_name) is Some ==> final(tables).rows_of(catalog, table_name) == old(tables).rows_of(catalog, table_name)),
+            res matches Ok(v) ==> rows@.len() > 0 ==> ({
+                let before = old(tables).rows_of(catalog, table_name);
+                &&& before is Some && all_storable(rows@)
+                &&& v@.len() == rows@.len() && forall|j: int| 0 <= j < rows@.len() ==> (#[trigger] v@[j]) == before->Some_0.len() + j      // the positions the rows received
+                &&& final(tables).rows_of(catalog, table_name) == Some(appended(before->Some_0, rows@, rows@.len() as int))            // each row appended in its STORED form, in order
+                &&& (catalog.schema_of(table_name) is Some ==> forall|j: int| 0 <= j < rows@.len() ==> old(self).index_manager.unique_ok(#[trigger] rows@[j]))
+                // the user-defined indexes are maintained with every row AS STORED at the position it received, in order
+                &&& (catalog.schema_of(table_name) is Some ==> final(self).index_manager.inserts() == logged(old(self).index_manager.inserts(), rows@, before->Some_0.len() as int, rows@.len() as int))
+            }),
+''')
+
 OBLIGATIONS = {
     'insert_row': ['post:unique_indexes_checked_first__indexes_maintained_with_the_stored_row_at_its_position__failure_changes_nothing'],
+    'insert_rows_batch': ['post:all_rows_checked_before_any_is_inserted__each_indexed_as_stored_at_its_position__a_failed_batch_changes_nothing', 'proof:loop_invariants_and_termination', 'safety:index_in_bounds'],
+    'lemma_appended': ['post:shape_of_the_appended_rows'],
 }
 CANARIES = ['canary_insert']
 TRUSTED = [
     'R12: `tables.get_mut(..)` returns `&mut Table`, which this Verus cannot express: the name normalisation + lookup block becomes Tables::resolve (Ok <=> the name resolves), and table.row_count() / table.insert(..) / table.scan().get(i).cloned().unwrap_or(row) become operations on the entry the name resolves to (external_body Tables::row_count, Tables::insert - append of the STORED FORM of the row or an error that changes nothing -, Tables::row_at_or - the row at a position)',
     'external_body IndexManager::check_unique_constraints_for_insert (uninterpreted unique_ok), add_to_indexes_for_insert (its effect on each index: unit I-maint; here a ghost log of (row, position) calls), Operations::update_spatial_indexes_for_insert (does not touch the B-tree index manager), Catalog::get_table',
     'Row, StorageError, TableSchema, Str, Catalog, Tables opaque; stored_form = RowNormalizer::normalize_and_validate uninterpreted',
-    'insert_rows_batch is NOT under contract (same shape in a loop; on a storage error it leaves a prefix of the batch inserted - observed, DESIGN 9b); check_unique_constraints_for_insert sees the row as handed in - the executors normalize before calling (fix ff7104d3)',
+    'insert_rows_batch: every row is checked (stored form exists, unique indexes accept it) before any is inserted, so a failed batch changes nothing (fix 1 of DESIGN 9c: it used to leave the rows before the rejected one inserted and unindexed); duplicates INSIDE one batch are not seen by check_unique_constraints_for_insert (each row is checked against the indexes as they were: the executors track keys within a statement, unit N-track); check_unique_constraints_for_insert sees the row as handed in - the executors normalize before calling (fix ff7104d3)',
+    'external_body Tables::normalize_row (Table::normalize_row: Ok iff the row has a stored form), row_ref_at_or (table.scan().get(i).unwrap_or(row)); Tables::insert fails ONLY for a row without a stored form (proved for Table::insert in unit K-table); R10 rewrites of the four loops over the batch',
 ]
